@@ -87,6 +87,9 @@ def spec_cases():
         for r in ["4", "4.0", "3.14", "3.9", "3.10", "3.10.0", "3.13.1"]:
             if Version(l) < Version(r):
                 specs += [f">={l},<{r}", f">{l},<{r}", f">={l},<={r}", f"<{l}||>={r}"]
+    # single clauses whose operand carries a pre-/post-/dev-release tag (from_specifier input "all simple specifiers")
+    for v in ["3.9a1", "3.9.0rc1", "3.9.0.post1", "3.10.0.dev0"]:
+        specs += [op + v for op in OPS if not (op == "~=" and v.count(".") == 0)]
     for name in ("python_version", "python_full_version"):
         for s in specs:
             yield {"name": name, "spec": s}
@@ -153,6 +156,11 @@ def evaluate(kind, case, acc):
         ev = bool(m.evaluate(env))
         acc.oracle_evaluations += 1
         outcomes.add(exp)
+        # "...on the versions the specifier admits": the specifier object's own answer has to be that one, too
+        own = (val in spec) if hasattr(spec, "__contains__") else exp
+        if own != exp:
+            acc.fail(kind, f"specifier-membership-differs-from-packaging:{name}", case, expected={"value": val, "admitted": exp}, got={"value in specifier": own, "specifier": str(spec)})
+            break
         if ev != exp:
             kindop = "~=" if "~=" in s else "wild" if ".*" in s else "range" if "," in s else "other"
             acc.fail(kind, f"from_specifier:{name}:{kindop}", case, expected={"value": val, "admitted": exp}, got={"atom": str(m), "evaluate": ev})
